@@ -265,6 +265,69 @@ def install_runs(si, profile, part):
             part["inconclusive"].append("%s: %s" % (kind_, detail))
 
 
+def chain_runs(si, profile, part):
+    """statement chains whose earlier statement's handler acts on what a LATER statement of the same program uses: it registers an
+    operator spelled like a variable / an operator sequence used later (the whole text was parsed before anything ran, so the later
+    statement keeps its reading), or it writes, through the context handle, the variable a compound assignment is updating (the
+    target was read before the right side ran)"""
+    wd = common.workdir(PROP)
+    steps, plan = [], []
+    k = 0
+    SYMS = ["+-", "-+", "*-", "<-", ">-", "<=-"]
+    for via in ("execute", ""):
+        for kind in ("prefix-word", "postfix-word", "infix-word", "infix-symbol", "target-write", "target-write-bare", "target-write-setter"):
+            for stmts_before in (0, 1, 3):
+                k += 1
+                hid = 50000 + si * 2000 + k * 10
+                nm = "cw%dx%d" % (si, k)
+                lead = "".join("p%d = %d; " % (i, i) for i in range(stmts_before))
+                fns, vars_ = {}, {nm: ["n", "7", 0], "c": ["n", "10", 0]}
+                if kind == "prefix-word":
+                    fns["inst"] = {"id": hid, "ret": "const", "v": ["n", "0", 0], "reenter": {"act": "reg_prefix", "name": nm, "beh": {"id": hid + 1, "ret": "tag"}}}
+                    text, want = lead + "inst(); %s" % nm, ["n", "7", 0]
+                elif kind == "postfix-word":
+                    fns["inst"] = {"id": hid, "ret": "const", "v": ["n", "0", 0], "reenter": {"act": "reg_postfix", "name": nm, "beh": {"id": hid + 1, "ret": "tag"}}}
+                    text, want = lead + "inst; 3 ; %s" % nm, ["n", "7", 0]
+                elif kind == "infix-word":
+                    fns["inst"] = {"id": hid, "ret": "const", "v": ["n", "0", 0], "reenter": {"act": "reg_infix", "name": nm, "prec": 115, "type": "CALC", "assoc": "LEFT", "beh": {"id": hid + 1, "ret": "tag"}}}
+                    text, want = lead + "x = inst(); 1 ; %s ; 2" % nm, ["n", "2", 0]
+                elif kind == "infix-symbol":
+                    sym = SYMS.pop(0)  # each symbol once per process: the registries are process-global
+                    fns["inst"] = {"id": hid, "ret": "const", "v": ["n", "0", 0], "reenter": {"act": "reg_infix", "name": sym, "prec": 115, "type": "CALC", "assoc": "LEFT", "beh": {"id": hid + 1, "ret": "tag"}}}
+                    text = lead + "inst(); 10 %s 3" % sym
+                    want = {"+-": ["n", "7", 0], "-+": ["n", "7", 0], "*-": ["n", "-30", 0], "<-": ["b", False], ">-": ["b", True], "<=-": ["b", False]}[sym]
+                elif kind == "target-write":
+                    fns["bump"] = {"id": hid, "ret": "const", "v": ["n", "1", 0], "reenter": {"act": "exec_same", "text": "c = 100"}}
+                    text, want = lead + "c = 10; c += bump(); c", ["n", "11", 0]
+                elif kind == "target-write-bare":
+                    fns["bump"] = {"id": hid, "ret": "const", "v": ["n", "1", 0], "reenter": {"act": "exec_same", "text": "c = 100"}}
+                    text, want = lead + "c -= bump; c", ["n", "9", 0]
+                else:
+                    fns["bump"] = {"id": hid, "ret": "const", "v": ["n", "1", 0], "reenter": {"act": "exec_same", "text": "c = 100"}}
+                    text, want = lead + "c *= 2 + bump(); c", ["n", "30", 0]
+                steps.append({"op": "ctx", "id": k, "vars": vars_, "fns": fns})
+                plan.append(None)
+                steps.append(dict({"op": "exec", "ctx": k, "text": text}, **({"via": via} if via else {})))
+                plan.append((text, want, kind, via or "parse_expression + exec"))
+    recs, events, _ = common.run_batch(steps, wd, "chain-%d-%s" % (si, profile), profile, timeout=300)
+    for pl, r in zip(plan, recs):
+        if pl is None or r is None:
+            continue
+        text, want, kind, via = pl
+        part["evaluations"] += 1
+        part["counts"]["chain_scenarios"] = part["counts"].get("chain_scenarios", 0) + 1
+        if r.get("res") == {"ok": want}:
+            part["classes"].add("chain:%s:%s" % (kind, via.split(" ")[0]))
+        else:
+            part["violations"].append({"sig": ["handler-changed-later-statement", kind, via.split(" ")[0]], "what": "`%s` (%s), where the handler %s: the outer evaluation returned %s, normal result %s" % (
+                text, via, "registers an operator that a later statement's text could be read with" if not kind.startswith("target") else "writes the assignment target through the context handle while the right side is evaluated", json.dumps(r.get("res")), json.dumps({"ok": want})), "replay": None})
+    for kind_, detail, k_ in events:
+        if kind_ in ("deadlock", "hang", "signal"):
+            part["violations"].append({"sig": [kind_, "chain"], "what": "statement chain with an acting handler: %s" % detail, "replay": None})
+        else:
+            part["inconclusive"].append("%s: %s" % (kind_, detail))
+
+
 def run_shard(desc):
     si, scns, profile = desc
     wd = common.workdir(PROP)
@@ -275,6 +338,10 @@ def run_shard(desc):
         return part
     if scns == "install":
         install_runs(si, profile, part)
+        part["classes"] = sorted(part["classes"])
+        return part
+    if scns == "chain":
+        chain_runs(si, profile, part)
         part["classes"] = sorted(part["classes"])
         return part
     steps, index = [], []
@@ -326,7 +393,7 @@ def run(rep, tier):
         shards.append((100 + i, scns[i::nsh], "release"))
     for i in range(8 if tier == "quick" else 64):
         shards.append((900 + i, "shared", "release" if i % 2 else "verifdbg"))
-    shards += [(950, "install", "verifdbg"), (951, "install", "release")]
+    shards += [(950, "install", "verifdbg"), (951, "install", "release"), (960, "chain", "verifdbg"), (961, "chain", "release")]
     for part in common.pmap(run_shard, shards):
         rep.merge(part)
     rep.extra["exhaustive"] = True
